@@ -232,7 +232,7 @@ func parentMain() {
 			// the monitor process died: the code under test panicked outside any recover
 			site := crashSite(c.stderr)
 			run.Violation("monitor-"+c.part+"-crashed@"+site, fmt.Sprintf("the %s monitor process died (%v) at %s", c.part, c.err, site),
-				map[string]interface{}{"stderr_tail": tail(c.stderr, 4000)})
+				map[string]interface{}{"panic_trace": panicHead(c.stderr, 4000)})
 			continue
 		}
 		c.res.mergeInto(run)
@@ -251,12 +251,12 @@ func parentMain() {
 	run.Require("mitm_completed_as_itself:own-key", 10)
 	run.Require("remote_pubkey_checked", 1000)
 	if raceBin != "" {
-		run.Require("c_sessions", int64(lib.Pick(100, 2000)))
+		run.Require("c_sessions", int64(lib.Pick(100, 1800)))
 		run.Require("c_msgs_received", int64(lib.Pick(5000, 100000)))
 		run.Require("c_trysend_refused", 1)
 		run.Require("c_multi_packet_msgs", 100)
 	}
-	run.Require("d_rows", int64(lib.Pick(700, 2000)))
+	run.Require("d_rows", int64(lib.Pick(900, 1900)))
 	run.Require("d_admitted", 50)
 	run.Require("d_refused", 300)
 	run.Require("h_cases", 10)
